@@ -142,6 +142,10 @@ def enumerate_mutations(c, cfg, timeout):
                          "code": w["code"]})
         for n, r in enumerate(j["resized"]):
             recs.append({"id": "%s/r%d" % (base, n), "ty": ty, "mut": r["how"], "buf": r["buf"], "code": r["code"]})
+        # valid encodings of the one-node variants of the base value (empty / one-item vectors, absent options, extreme
+        # numbers ...): well-formed by construction (Molecule!Enc), unusual for accessors and context-free verifiers
+        for n, b in enumerate(j.get("variants", [])):
+            recs.append({"id": "%s/v%d" % (base, n), "ty": ty, "mut": "valid-variant", "buf": b, "code": 3})
     shutil.rmtree(outdir, ignore_errors=True)
     # the same buffer can arise from several values of a type: judge it once
     seen, out = set(), []
@@ -229,6 +233,10 @@ def run(tier):
         raise V.ToolError("vacuous mutation replay: %s" % ms)
     for r in recs:
         c.case(["mut", r["ty"], r["buf"]], r["mut"] != "valid")
+    nvar = sum(1 for r in recs if r["mut"] == "valid-variant")
+    if nvar < 300:
+        raise V.ToolError("vacuous: only %d valid variants of the structural types were enumerated" % nvar)
+    ms["valid_variants"] = nvar
     c.set("mutations", ms)
     c.set("mutated_types", len({r["ty"] for r in recs}))
     c.add("traces_validated_against_impl", ms["buffers"])
